@@ -33,7 +33,7 @@ PROPS_ADD = {
         "engine": "redissim", "level": "exploration", "budget": {"quick": 28, "thorough": 600},
         "title": "Concurrent Redis clients never lose updates",
         "technique": "deterministic simulation: 2-4 connections served by the real handleConn as scheduler tasks issue INCR/INCRBY/DECRBY and SET NX on shared keys; a seeded scheduler interleaves them at backend-call boundaries, at the verifhook yield sites inside the transaction path, at the SUT's own blocking points (WaitForMark, commit wait) and, for the raft-backed variant, at every raftClient/TSO call",
-        "rule": "case = per-connection command scripts + configuration (connections, counters, NX keys, backend) + scheduler choice tape; oracle: final GET of every counter = initial value + sum of the deltas of the commands that replied an integer, at most one SET NX per absent key replied OK; distinct = distinct event-trace hash (scheduler decisions included); non-trivial = backend calls of different connections alternated at least twice",
+        "rule": "case = per-connection command scripts + configuration (connections, counters, NX keys, backend, retry budget of read-modify-write commands 1-3 or shipped 64) + scheduler choice tape; oracle: final GET of every counter = initial value + sum of the deltas of the commands that replied an integer, at most one SET NX per absent key replied OK; distinct = distinct event-trace hash (scheduler decisions included); non-trivial = backend calls of different connections alternated at least twice",
         "level_text": "Seeded search over interleavings of concurrent client commands. The property quantifies over all schedules; they are sampled at the granularity of the yield sites reachable in the tree, which is stated in the note.",
         "note": "Granularity: embedded backend - boundaries of each redisBackend call, every verifhook.Yield site named wm./txn./oracle./orc./db./commit./write. that the handler goroutine reaches inside db.Update (yields under the oracle mutex are passed through unless the tree announces the lock with BeforeLock), and the engine's own blocking points (a command started while another is in its commit window waits in WaitForMark). Raft-backed variant - the real raftBackend over an ideal single-region snapshot-isolation store (harness model of percolator: locks, write conflicts) with a scheduling point at every raftClient/TSO call; it shows what the gateway's own read-then-write logic loses, not what a real cluster adds. The bubble runs on one P (GOMAXPROCS 1) so that tasks woken by the same event run in readying order.",
         "design_ref": "7/C30", "assumptions": E5_ASSUME,
